@@ -100,7 +100,7 @@ fn small_poly_case(grid: i64, len: u32) -> impl Fn(&mut Src, &mut Ctx) -> Result
 
 /// x-monotone rectilinear ("histogram") polygon: columns with [bottom, top] ranges that overlap
 /// their neighbours. Produces L, U, T and staircase shapes; simple by construction.
-fn gen_histogram(src: &mut Src, scale: i64) -> Vec<P> {
+pub fn gen_histogram(src: &mut Src, scale: i64) -> Vec<P> {
     let ncol = src.usize_in(1, 6);
     let mut cols: Vec<(i64, i64, i64)> = vec![]; // (width, bottom, top)
     let (mut b, mut t) = (src.i64_in(0, 4), 0);
@@ -138,7 +138,7 @@ fn gen_histogram(src: &mut Src, scale: i64) -> Vec<P> {
     v
 }
 /// Chamfer some convex corners of a (scaled) rectilinear polygon by one unit: 45-degree polygon.
-fn chamfer(src: &mut Src, v: &[P]) -> Vec<P> {
+pub fn chamfer(src: &mut Src, v: &[P]) -> Vec<P> {
     let r = match G::reduce(v) {
         Some(r) => r,
         None => return v.to_vec(),
@@ -165,7 +165,7 @@ fn chamfer(src: &mut Src, v: &[P]) -> Vec<P> {
 }
 /// Star-shaped polygon: vertices at strictly increasing polar angle around the origin, with
 /// every angular gap below 180 degrees. Simple by construction.
-fn gen_star(src: &mut Src) -> Vec<P> {
+pub fn gen_star(src: &mut Src) -> Vec<P> {
     let k = src.usize_in(3, 9);
     let rr = src.i64_in(2, 40);
     let mut dirs: Vec<P> = vec![];
@@ -267,7 +267,7 @@ fn big_poly_case(src: &mut Src, ctx: &mut Ctx) -> Result<(), String> {
 }
 
 // ---- Manhattan paths -----------------------------------------------------------------------------
-fn gen_path(src: &mut Src) -> (Vec<P>, i64) {
+pub fn gen_path(src: &mut Src) -> (Vec<P>, i64) {
     let n = src.usize_in(2, 8);
     let mut p = (src.signed(20), src.signed(20));
     let mut v = vec![p];
